@@ -18,6 +18,7 @@ mod rawpkh;
 mod desc;
 mod psbt;
 mod policy;
+mod poltext;
 mod tables;
 mod tap;
 mod validate;
@@ -65,6 +66,7 @@ fn main() {
         "translate" => translate::run(&args[2..]),
         "translate-mp" => translate_mp::run(&args[2..]),
         "policy" => policy::run(&args[2..]),
+        "poltext" => poltext::run(&args[2..]),
         "robust" => robust::run(&args[2..]),
         other => {
             eprintln!("unknown engine {}", other);
